@@ -37,9 +37,9 @@ ASSUMPTIONS = [
 ]
 PROBES = ("cancel_in_source", "cancel_in_callable", "cancel_at_lock_wait", "cancel_in_getter", "cancel_in_wrapped",
           "cancel_in_exit_callback", "cancel_in_enter", "cancel_in_block_body", "class_tool", "class_agg",
-          "class_tee", "class_lru", "class_cached_property", "class_exitstack", "class_scoped_iter")
+          "class_tee", "class_lru", "class_cached_property", "class_exitstack", "class_scoped_iter", "class_groupby_group")
 NAMES = tuple(n for n in TOOL_NAMES if n not in ("iter_sentinel",)) + AGG_NAMES
-CLASSES = ("op", "op", "op", "tee", "lru", "cprop", "stack", "scoped")
+CLASSES = ("op", "op", "op", "tee", "lru", "cprop", "stack", "scoped", "group")
 
 
 class Prep:
@@ -87,6 +87,11 @@ def prepare(ch):
         prep.second = ch.chance(1, 2)
         # another task invalidates the property (del instance.attr) while the computation is in flight
         prep.deleter = ch.draw(4) if ch.chance(1, 3) else None
+    elif prep.cls == "group":
+        # a group of a groupby advanced directly; whoever is being advanced when the cancellation arrives gets closed
+        prep.src = g.src(g.items(ch.between(1, 6)))
+        prep.key = g.fn(("keyval", "div", "const")[ch.draw(3)], ch.draw(2))
+        prep.per_group = ch.between(1, 3)
     elif prep.cls == "scoped":
         prep.src = g.src(g.items(ch.between(0, 4)))
         prep.pre = ch.draw(3)     # block-level suspensions before the first pull
@@ -99,6 +104,8 @@ def prepare(ch):
         #  behaviour 0 falsy 1 truthy 2 raise 3 registers one more exit on the stack when it is handed an exception)
         prep.body_susp = ch.between(1, 2)
         prep.block_raises = ch.chance(1, 3)
+        # the same stack object served an earlier block whose unwind ended by raising (and was handled)
+        prep.reused = ch.chance(1, 4)
     # dry run
     st = Streams(Chooser(replay=[]), Chooser(replay=[0]), Chooser(replay=[]))
     sim, info = run_once(prep, st, None, 0)
@@ -118,7 +125,7 @@ def run_once(prep, st, cancel_at, interrupts, cancel_type=Cancel):
     set_interrupts(sim, interrupts)
     info = {"problems": [], "target": None, "reached": False, "leaving": None, "detail": {}}
     runner = {"op": run_op, "tee": run_tee, "lru": run_lru, "cprop": run_cprop, "stack": run_stack,
-              "scoped": run_scoped}[prep.cls]
+              "scoped": run_scoped, "group": run_group}[prep.cls]
     runner(prep, st, sim, info, cancel_at)
     return sim, info
 
@@ -178,6 +185,50 @@ def run_op(prep, st, sim, info, cancel_at):
                 info["problems"].append(("C18.source_leaked_after_cancel", (spec.tool,), {"unreleased": bad}))
             raise
         await it.aclose()
+
+    task = sim.spawn(consumer())
+    info["target"] = task
+    if cancel_at:
+        sim.cancel_plan[task.id] = cancel_at
+    run_sim(sim)
+
+
+def run_group(prep, st, sim, info, cancel_at):
+    from ..actors import make_async_source, make_async_fn
+    world = World(sim, own_log=True)
+    L = lib()
+    src = make_async_source(world, prep.src)
+    key = make_async_fn(world, prep.key)
+    info["detail"].update({"source": prep.src.describe(), "key": prep.key.describe(), "items_per_group": prep.per_group})
+
+    async def consumer():
+        gb = L.groupby(src.obj, key.obj)
+        advancing = gb
+        try:
+            while True:
+                advancing = gb
+                try:
+                    _k, grp = await gb.__anext__()
+                except StopAsyncIteration:
+                    break
+                advancing = grp
+                for _ in range(prep.per_group):
+                    try:
+                        await grp.__anext__()
+                    except StopAsyncIteration:
+                        break
+        except Cancel as err:
+            info["leaving"] = err
+            info["detail"]["cancelled_while_advancing"] = "group" if advancing is not gb else "groupby"
+            try:
+                await advancing.aclose()
+            except BaseException as cerr:  # noqa
+                info["problems"].append(("C18.aclose_after_cancel_raised", ("groupby", type(cerr).__name__), {"exc": repr(cerr)}))
+            if src.must_release and not src.released:
+                info["problems"].append(("C18.source_leaked_after_cancel",
+                                         ("groupby", info["detail"]["cancelled_while_advancing"]), {"unreleased": [src.name]}))
+            raise
+        await gb.aclose()
 
     task = sim.spawn(consumer())
     info["target"] = task
@@ -492,8 +543,18 @@ def run_stack(prep, st, sim, info, cancel_at):
     objs = [make(i, k, s, b) for i, (k, s, b) in enumerate(prep.entries)]
 
     async def block():
+        the_stack = L.ExitStack()
+        if getattr(prep, "reused", False):
+            async def failing_exit(et, ev, tb):
+                raise InjectedFault("first use")
+
+            try:
+                async with the_stack:
+                    the_stack.push(failing_exit)
+            except InjectedFault:
+                pass
         try:
-            async with L.ExitStack() as stack:
+            async with the_stack as stack:
                 stack_box.append(stack)
                 for (name, obj), (kind, _, _) in zip(objs, prep.entries):
                     if kind in (0, 3):
@@ -613,7 +674,8 @@ def run_prepared(prep, st, ctx):
         elif party.lstrip("abc").startswith("s"):
             out.probes["cancel_in_source"] = 1
     cname = {"scoped": "class_scoped_iter", "op": "class_agg" if getattr(prep, "is_agg", False) else "class_tool", "tee": "class_tee",
-             "lru": "class_lru", "cprop": "class_cached_property", "stack": "class_exitstack"}[prep.cls]
+             "lru": "class_lru", "cprop": "class_cached_property", "stack": "class_exitstack",
+             "group": "class_groupby_group"}[prep.cls]
     out.probes[cname] = 1
     out.nontrivial = fired
     out.shape = (prep.cls, tuple(st.scenario.rec[:60]), c)
